@@ -14,7 +14,7 @@ func init() {
 		},
 		Rule:      "a case = (generated design, method, valid payload drawn per transport location) sent through the generated client to the generated server behind a real net/http server; variants: 'client' (first route), 'route' (captured request re-targeted to another designed route), 'default' (a defaulted attribute deleted from the captured wire request). Non-trivial = >=2 attributes set in >=2 locations, or a boundary-class value (URL-reserved, percent, space, non-ASCII, 64-bit extreme, empty or nested collection), or a route/default variant. Distinct = SHA-256 of method, variant and canonical payload.",
 		LevelText: "Generated-input search over designs and values: each design is translated by the real goa generators of the working tree, compiled, and executed; the payload received by the stub service is compared with the payload sent under a reference semantics written from the DSL docs (equality, declared defaults, per-location wire check on the tapped request). Exploration: designs and values are sampled, failing payloads shrink with rapid and are saved with the design.",
-		LevelNote: "Trusts the Go tool chain, net/http, rapid, and the verifier's own model/oracle (internal/model, internal/oracle) and reflection harness. Designs stay inside the oracle-complete subset (gen.Request profile); open known findings are excluded by construction and probed separately. OneOf unions travel in bodies (alternatives without validations while finding C04-union-alternative-validations-not-enforced is open). Request bodies streamed by the method itself (SkipRequestBodyEncodeDecode) are exercised on a fixed design (payload in path/query/headers, opaque body bytes up to 200 kB). Streaming endpoints (websocket) are exercised on a fixed design and on generated designs of the streams profile (payload mapped to path / query / headers, streamed messages over the generator's whole type grammar: primitives, arrays, maps, inline objects, user types with nesting, recursion, validations and defaults, result types with views). Fixed design (stream matrix: payload-streaming and bidirectional methods with primitive, array and user-type messages, initial payload in path / query / headers of the upgrade request): scripted calls of up to 10 (quick) interleaved messages, the initial payload and every streamed message compared in order at the service, end of the client's stream seen as io.EOF. Multipart is not exercised.",
+		LevelNote: "Trusts the Go tool chain, net/http, rapid, and the verifier's own model/oracle (internal/model, internal/oracle) and reflection harness. Designs stay inside the oracle-complete subset (gen.Request profile); open known findings are excluded by construction and probed separately. OneOf unions travel in bodies (alternatives without validations while finding C04-union-alternative-validations-not-enforced is open). Request bodies streamed by the method itself (SkipRequestBodyEncodeDecode) are exercised on a fixed design (payload in path/query/headers, opaque body bytes up to 200 kB). Streaming endpoints (websocket) are exercised on a fixed design and on generated designs of the streams profile (payload mapped to path / query / headers, streamed messages over the generator's whole type grammar: primitives, arrays, maps, inline objects, user types with nesting, recursion, validations and defaults, result types with views). Fixed design (stream matrix: payload-streaming and bidirectional methods with primitive, array and user-type messages, initial payload in path / query / headers of the upgrade request): scripted calls of up to 10 (quick) interleaved messages, the initial payload and every streamed message compared in order at the service, end of the client's stream seen as io.EOF. Multipart is not exercised. Extend / Reference inheritance is exercised on a fixed design (InheritMatrix: inherited attributes in path, query, header and body), request bodies on GET / DELETE endpoints on another (GetBodyMatrix).",
 		Technique: "property-based testing (rapid): round trip through generated client and server for generated designs and payloads, location oracle on the tapped request, wire-level metamorphic variants; scripted streaming calls (both ends follow a generated script) with per-message equality in order",
 		Assumptions: []string{
 			"an empty collection and an unset one are the same Go value (nil slice/map): not told apart",
